@@ -463,7 +463,8 @@ class Canon(ast.NodeTransformer):
         # x as a load)
         if isinstance(node.iter, (ast.Tuple, ast.List)) and \
                 1 <= len(node.iter.elts) <= 4 and all(
-                    isinstance(e, ast.Name) for e in node.iter.elts) and \
+                    isinstance(e, (ast.Name, ast.Constant))
+                    for e in node.iter.elts) and \
                 isinstance(node.target, ast.Name) and not node.orelse and \
                 len(node.body) <= 2 and not any(
                     isinstance(n, (ast.Break, ast.Continue, ast.Return,
